@@ -1201,3 +1201,21 @@ Proof.
   destruct (model_errors _ _ _ _) as [[cbrF cbnF] es] eqn:M. cbn [res_cbr] in H2.
   eapply model_errors_exact; eauto.
 Qed.
+
+(* R union_inline_reprocessed: U = anyOf[{x: {y: string}}, string] - a VALID document.  The inline object member is processed
+   when U is created (UnionProperty.build -> property_from_data, process_properties defaults to True) and is ALSO appended to
+   models_to_process; _process_models runs it again, its own inline class UType0X is now a duplicate, the error's roots are
+   {UType0} only (no reference: the union passed no roots): UType0 is popped, U survives and refers to it; the diagnostic's
+   removal list is empty.  (ids: U = 1; classes UType0 = 1, UType0X = 2) *)
+Definition witness_union_inline : graph :=
+  [mkN 1 false TOther [mkI (OMintModel 2 (Some 0%nat)) 10; mkI (OMintModel 1 (Some 1%nat)) 10]
+       [mkE 3 2 [RCls 1; RCls 2] []; mkE 2 1 [RCls 1] [mkI (OMintModel 2 None) 0]]].
+Theorem union_inline_reprocessed_refuted :
+  exists g, wf_graph g = true /\ g_no_name_pressure g = true /\ g_no_union_edge_to_failing g = false /\
+    exists n c, In n g /\ has (res_cbr (build_schemas g)) (n_ref n) = true /\ In c (node_mints n) /\
+                has (res_cbn (build_schemas g)) c = false /\ map er_removed (res_errs (build_schemas g)) = [[]].
+Proof.
+  exists witness_union_inline. split; [vm_compute; reflexivity|]. split; [vm_compute; reflexivity|]. split; [vm_compute; reflexivity|].
+  eexists. exists 1. split; [left; reflexivity|]. split; [vm_compute; reflexivity|]. split; [vm_compute; tauto|].
+  split; vm_compute; reflexivity.
+Qed.
